@@ -336,6 +336,82 @@ func C17(c *core.Ctx) error {
 			cases = append(cases, cs{})
 		}
 	}
+	// ---- header settings written on a recursive package: they reach every package below it, whether that package is
+	// discovered, has an entry of its own (with interfaces, or null), or is itself a recursive package nearer to the
+	// leaves that overrides one of them
+	for _, tmpl := range []string{"testify", "matryer"} {
+		for _, fmtr := range []string{"goimports", "noop"} {
+			id := fmt.Sprintf("header settings on a recursive package, sub-packages discovered / listed / null / nested recursive, template=%s formatter=%s", tmpl, fmtr)
+			files := map[string]string{"boiler_r.txt": "// Header of r\n// second line\n", "boiler_mid.txt": "// Header of mid\n"}
+			for _, d := range []string{"r", "r/plain", "r/listed", "r/null", "r/mid", "r/mid/deep", "r/mid/own"} {
+				files[d+"/x.go"] = "package " + d[strings.LastIndex(d, "/")+1:] + "\n\ntype I interface{ M(a int) error }\n"
+			}
+			R := core.ModPath + "/r"
+			pkgs := core.M{
+				R:              core.M{"config": core.M{"recursive": true, "template-data": core.M{"mock-build-tags": "alpha", "boilerplate-file": "boiler_r.txt"}}},
+				R + "/listed":  core.M{"interfaces": core.M{"I": core.M{}}},
+				R + "/null":    nil,
+				R + "/mid":     core.M{"config": core.M{"recursive": true, "template-data": core.M{"mock-build-tags": "beta && !alpha"}}},
+				R + "/mid/own": core.M{"config": core.M{"template-data": core.M{"boilerplate-file": "boiler_mid.txt"}}},
+			}
+			type hp struct{ tags, boiler string }
+			rb, mb := files["boiler_r.txt"], files["boiler_mid.txt"]
+			want := map[string]hp{"r": {"alpha", rb}, "r/plain": {"alpha", rb}, "r/listed": {"alpha", rb}, "r/null": {"alpha", rb},
+				"r/mid": {"beta && !alpha", rb}, "r/mid/deep": {"beta && !alpha", rb}, "r/mid/own": {"beta && !alpha", mb}}
+			cfg := core.M{"template": tmpl, "formatter": fmtr, "all": true, "log-level": "error", "dir": "{{.InterfaceDir}}", "pkgname": "{{.SrcPackageName}}", "filename": "mocks_gen.go", "packages": pkgs}
+			files[".mockery.yml"] = core.YAML(cfg)
+			m, err := c.NewModule("c17-rec-"+tmpl+fmtr, files)
+			if err != nil {
+				return err
+			}
+			r := c.RunMockery(m.Dir, nil)
+			c.Ev.Add("transitions", 1)
+			c.Ev.Distinct("states", id)
+			replay := map[string]any{"case": id, "files": files, "exit": r.Exit, "stderr": firstN(r.Stderr, 400)}
+			ok := r.Exit == 0
+			if !ok {
+				c.Report("generate:"+id, fmt.Sprintf("mockery failed (exit %d): %s", r.Exit, firstN(r.Stderr, 400)), replay)
+			}
+			var dirs []string
+			for d := range want {
+				dirs = append(dirs, d)
+			}
+			sort.Strings(dirs)
+			for _, d := range dirs {
+				if !ok {
+					break
+				}
+				h := want[d]
+				txt, _ := m.Read(d + "/mocks_gen.go")
+				header, _, found := strings.Cut(txt, "\npackage ")
+				if !found {
+					c.Report("nopackage:"+id, "no mock file with a package clause at "+d+"/mocks_gen.go", replay)
+					ok = false
+					break
+				}
+				var gotTags []string
+				for _, l := range strings.Split(header, "\n") {
+					if strings.HasPrefix(l, "//go:build ") {
+						gotTags = append(gotTags, strings.TrimPrefix(l, "//go:build "))
+					}
+				}
+				if strings.Join(gotTags, "|") != h.tags {
+					c.Report("recursive-constraint:"+id, fmt.Sprintf("mocks of package %s carry the build constraint(s) %q; the setting of its nearest configured ancestor is %q", d, gotTags, h.tags), replay)
+					ok = false
+					break
+				}
+				if !strings.Contains(header+"\n", h.boiler) {
+					c.Report("recursive-boilerplate:"+id, fmt.Sprintf("mocks of package %s lack the boilerplate %q that applies to them; header:\n%s", d, h.boiler, header), replay)
+					ok = false
+				}
+			}
+			m.Remove()
+			if ok {
+				done++
+			}
+			cases = append(cases, cs{})
+		}
+	}
 	// ---- the header settings change between two runs over the same tree (force-file-write true): the second run's
 	// file carries the second run's boilerplate and constraint, whatever the first run left there
 	for _, tmpl := range []string{"testify", "matryer"} {
